@@ -7,7 +7,8 @@
 (*                                                                         *)
 (*   Env  : the six inputs of the cycle, any value in any cycle            *)
 (*          (line_state 0..3, vbus_connected, disconnect, full_speed_only, *)
-(*          low_speed_only, bus_busy).  One assumption: BusyMax below.     *)
+(*          low_speed_only, bus_busy) and the reset of the usb clock       *)
+(*          domain (rst).  One assumption: BusyMax below.                  *)
 (*   Ref  : the reset sequencer as *designed* -- FSM states, the event     *)
 (*          timer and the line-state timer, thresholds as named constants  *)
 (*          (implementation-shaped: the property is about the mechanism's  *)
@@ -179,7 +180,7 @@ RefTypeOK(s) == /\ s.fsm \in FsmStates /\ s.timer \in 0..TimerMod-1 /\ s.lst \in
 -----------------------------------------------------------------------------
 (***************************************************************************)
 (* Prop -- monitors over one *observation* per cycle                       *)
-(*   o = [ls, vbus, disc, fso, lso, busy,          (inputs of the cycle)   *)
+(*   o = [ls, vbus, disc, fso, lso, busy, rst,     (inputs of the cycle)   *)
 (*        br, susp, spd, op, term, txv, txd]       (public outputs)        *)
 (* with their own run-length / age ghosts (record m).  Nothing below       *)
 (* refers to Ref.  "xxxAge" = number of cycles since condition xxx last    *)
@@ -225,8 +226,9 @@ MonEval(m, o) ==
       \* --- run lengths including the current cycle
       se0Run1    == IF o.ls = SE0 THEN Min(m.se0Run + 1, T5US) ELSE 0
       q2p5Age1   == AgeOf(se0Run1 >= T2P5US, m.q2p5Age)
-      \* (a soft-disconnected device -- non-driving -- starts afresh: the run no longer counts as HS idle)
-      taint1     == o.ls = SE0 /\ o.op # NONDRIVING /\ (hsNow \/ m.taint)
+      \* (a soft-disconnected device -- non-driving -- or one whose clock domain is reset starts afresh:
+      \*  the run no longer counts as HS idle)
+      taint1     == o.ls = SE0 /\ o.op # NONDRIVING /\ ~o.rst /\ (hsNow \/ m.taint)
       q5Age1     == AgeOf(se0Run1 >= T5US /\ ~taint1, m.q5Age)
       idleNow    == o.spd # HIGH /\ o.ls = IdleLs(o.spd)
       idleRun1   == IF idleNow THEN Min(m.idleRun + 1, T3MS) ELSE 0
@@ -287,11 +289,12 @@ MonEval(m, o) ==
              ELSE IF o.br /\ ~brOK THEN "e_bus_reset_without_cause"
              ELSE IF suspRise /\ ~suspOK THEN "f_suspend_without_3ms_idle"
              ELSE IF chirpStart /\ unrAge1 > Slack THEN "b_handshake_started_while_restricted"
+             ELSE IF chirpStart /\ rstAge1 > Slack THEN "g_handshake_without_reported_bus_reset"
              ELSE IF hsNow /\ ~hsOK1 THEN "a_high_speed_without_valid_handshake"
              ELSE IF rhs1 > 2 THEN "c_high_speed_kept_while_restricted"
              ELSE IF inWin /\ active1 /\ awaitAge1 > T2P5MS + Slack THEN "d_no_fallback_after_chirp_timeout"
              ELSE "ok"
-      closes   == o.br \/ suspRise \/ chirpStart \/ hsRise
+      closes   == o.br \/ suspRise \/ chirpStart \/ hsRise \/ o.rst
       \* --- which antecedents were exercised in this cycle (coverage information only)
       ev == (IF o.br THEN {IF ~o.vbus THEN "reset_no_vbus"
                            ELSE IF suspAge1 <= Slack /\ q2p5Age1 <= Slack THEN "reset_from_suspend"
@@ -356,7 +359,7 @@ MonAdv(m, o, n) ==
       hsIdleRun1 == IF hsNow /\ o.ls = SE0 THEN Min(m.hsIdleRun + n, T3MS) ELSE 0
       chirpAge1  == AgeN(o.op = CHIRP, m.chirpAge)
       suspAge1   == AgeN(o.susp, m.suspAge)
-      revertOn1  == m.revertOn /\ ~o.br
+      revertOn1  == m.revertOn /\ ~o.br /\ ~o.rst
       inWin      == o.op = CHIRP
       keepWin    == chirpAge1 <= Slack
       kRun1      == IF inWin /\ DrivingChirpK(o) THEN Min(m.kRun + n, T1MS) ELSE 0
@@ -391,9 +394,9 @@ MonAdv(m, o, n) ==
         !.phase = IF keepWin THEN phase1 ELSE 0, !.run = IF keepWin THEN run1 ELSE 0,
         !.pairs = IF keepWin THEN pairs1 ELSE 0]
 
-\* A leap is only defined over cycles in which bus_reset is not being justified by an SE0 run
-\* (the recorder logs those cycle by cycle).
-AdvDefined(o) == o.br => ~o.vbus
+\* A leap is only defined over cycles in which bus_reset is not being justified by an SE0 run and the
+\* clock domain is not held in reset (the recorder logs those cycle by cycle).
+AdvDefined(o) == (o.br => ~o.vbus) /\ ~o.rst
 
 \* Coverage information for a leap: a chirp state may complete inside it.
 AdvEv(m, o, n) ==
@@ -472,23 +475,28 @@ VARIABLES ref,      \* Ref state
 
 vars == <<ref, mon, bad, obs>>
 
-ObsOf(s, i) == LET u == RefOut(s, i) IN
-  [ls |-> i.ls, vbus |-> i.vbus, disc |-> i.disc, fso |-> i.fso, lso |-> i.lso, busy |-> i.busy,
+ObsOfR(s, i, rst) == LET u == RefOut(s, i) IN
+  [ls |-> i.ls, vbus |-> i.vbus, disc |-> i.disc, fso |-> i.fso, lso |-> i.lso, busy |-> i.busy, rst |-> rst,
    br |-> u.br, susp |-> u.susp, spd |-> u.spd, op |-> u.op, term |-> u.term, txv |-> u.txv, txd |-> 0]
 InOf(o) == [ls |-> o.ls, vbus |-> o.vbus, disc |-> o.disc, fso |-> o.fso, lso |-> o.lso, busy |-> o.busy]
 OutOf(o) == [br |-> o.br, susp |-> o.susp, spd |-> o.spd, op |-> o.op, term |-> o.term, txv |-> o.txv]
 
+ObsOf(s, i) == ObsOfR(s, i, FALSE)
 NoObs == ObsOf(RefInit, [ls |-> FSJ, vbus |-> FALSE, disc |-> FALSE, fso |-> FALSE, lso |-> FALSE, busy |-> FALSE])
 
 Init == ref = RefInit /\ mon = MonInit /\ bad = "ok" /\ obs = NoObs
 
-Cycle(i) == LET o == ObsOf(ref, i)
+\* One cycle with inputs i; rst = the (synchronous) reset of the usb clock domain is asserted in it: the
+\* outputs of the cycle are unaffected, every register takes its initial value at the clock edge ending it.
+CycleR(i, rst) ==
+            LET o == ObsOfR(ref, i, rst)
                 e == MonEval(mon, o)
             IN /\ e.bad # "env_bus_busy_beyond_assumption"          \* Env assumption
-               /\ ref' = RefNext(ref, i)
+               /\ ref' = IF rst THEN RefInit ELSE RefNext(ref, i)
                /\ mon' = e.m
                /\ bad' = IF bad = "ok" THEN e.bad ELSE bad
                /\ obs' = o
+Cycle(i) == CycleR(i, FALSE)
 
 \* Prop: the designed sequencer never violates a clause, whatever the inputs.
 PropHolds == bad = "ok"
